@@ -1,162 +1,77 @@
 /-
-File-system effect of `sweep_expired` and of the start-up purge (C04).
+File-system effect of `sweep_expired` and of the start-up purge, with I/O errors (C04).
 -/
 import EphVerif.Lemmas.C04FS
 
 namespace EphVerif.ChunkStore
 
-/-- does the sweep at `now` wipe the file of this record? -/
-def wiped (cfg : Cfg) (now : Int) (r : Rec) : Bool := expiredSweep now r.expires && r.persisted && cfg.wipeOnExpiry
-
-theorem sweepOps_cons (cfg : Cfg) (now : Int) (id : String) (r : Rec) (rest : Recs) (fs : FS) :
-    sweepOps cfg now ((id, r) :: rest) fs =
-      if wiped cfg now r then
-        wipeOps cfg fs (.chunk id) ++ sweepOps cfg now rest (applyOps fs (wipeOps cfg fs (.chunk id)))
-      else sweepOps cfg now rest fs := by
-  simp [sweepOps, wiped]
-
-theorem sweepOps_touches_chunks (cfg : Cfg) (now : Int) (recs : Recs) (fs : FS) :
-    ∀ o ∈ sweepOps cfg now recs fs, ∃ id, touchesOnly (.chunk id) o := by
-  induction recs generalizing fs with
-  | nil => intro o h; simp [sweepOps] at h
-  | cons e rest ih =>
-    obtain ⟨id, r⟩ := e
-    intro o h
-    rw [sweepOps_cons] at h
-    split at h
-    · rcases List.mem_append.mp h with h | h
-      · exact ⟨id, wipeOps_touches _ _ _ o h⟩
-      · exact ih _ o h
-    · exact ih _ o h
-
-/-- a file the sweep does not wipe is untouched -/
-theorem sweepOps_keep (cfg : Cfg) (now : Int) (recs : Recs) (fs : FS) (q : Name)
-    (h : ∀ id r, (id, r) ∈ recs → wiped cfg now r = true → Name.chunk id ≠ q) :
-    aget (applyOps fs (sweepOps cfg now recs fs)) q = aget fs q := by
-  induction recs generalizing fs with
-  | nil => rfl
-  | cons e rest ih =>
-    obtain ⟨id, r⟩ := e
-    rw [sweepOps_cons]
-    have hrest : ∀ id r, (id, r) ∈ rest → wiped cfg now r = true → Name.chunk id ≠ q :=
-      fun i r' hm hw => h i r' (List.mem_cons_of_mem _ hm) hw
-    split
-    · rename_i hw
-      rw [applyOps_append, ih _ hrest, wipeOps_other _ _ (h id r List.mem_cons_self hw)]
-    · exact ih _ hrest
-
-/-- a file the sweep wipes is gone afterwards -/
-theorem sweepOps_gone (cfg : Cfg) (now : Int) (recs : Recs) (hu : Uniq recs) (fs : FS) (id : String) (r : Rec)
-    (hm : (id, r) ∈ recs) (hw : wiped cfg now r = true) :
-    aget (applyOps fs (sweepOps cfg now recs fs)) (.chunk id) = none := by
-  induction recs generalizing fs with
-  | nil => simp at hm
-  | cons e rest ih =>
-    obtain ⟨id', r'⟩ := e
-    have hu' := List.pairwise_cons.mp hu
-    rw [sweepOps_cons]
-    rcases List.mem_cons.mp hm with hm | hm
-    · cases hm
-      simp only [hw, if_true]
-      rw [applyOps_append, sweepOps_keep]
-      · exact wipeOps_self _ _ _
-      · intro i r'' hmi _ heq
-        cases heq
-        exact hu'.1 _ hmi rfl
-    · split
-      · rw [applyOps_append]; exact ih hu'.2 _ hm
-      · exact ih hu'.2 _ hm
-
-/-- non-chunk directory entries are never touched by a sweep (or any prefix of it) -/
+/-- operations that touch chunk files only leave every other directory entry alone -/
 theorem ops_other_untouched {ops : List FsOp} (h : ∀ o ∈ ops, ∃ id, touchesOnly (.chunk id) o) (fs : FS) (n : String) :
     aget (applyOps fs ops) (.other n) = aget fs (.other n) := by
-  induction ops generalizing fs with
-  | nil => rfl
-  | cons o r ih =>
-    rw [applyOps_cons, ih (fun o' ho' => h o' (List.mem_cons_of_mem _ ho'))]
-    obtain ⟨id, ht⟩ := h o List.mem_cons_self
-    exact applyOp_other (by simp) fs ht
+  apply applyOps_untouched
+  intro o ho
+  obtain ⟨id, ht⟩ := h o ho
+  exact ⟨.chunk id, by simp, ht⟩
 
-theorem purgeOps_cons (cfg : Cfg) (p : Name) (rest : List Name) (fs : FS) :
-    purgeOps cfg (p :: rest) fs =
-      if p.isChunk then wipeOps cfg fs p ++ purgeOps cfg rest (applyOps fs (wipeOps cfg fs p))
-      else purgeOps cfg rest fs := by
-  simp [purgeOps]
+theorem wipeAllF_chunks (cfg : Cfg) (φ : Faults) (names : List Name) (fs : FS) (n : Nat)
+    (hc : ∀ q ∈ names, q.isChunk = true) :
+    ∀ o ∈ (wipeAllF cfg φ names fs n).1, ∃ id, touchesOnly (.chunk id) o := by
+  intro o ho
+  obtain ⟨⟨p, hp, ht⟩, _⟩ := wipeAllF_ops cfg φ names fs n o ho
+  cases p with
+  | chunk id => exact ⟨id, ht⟩
+  | other m => have := hc _ hp; simp [Name.isChunk] at this
 
-theorem purgeOps_touches_chunks (cfg : Cfg) (names : List Name) (fs : FS) :
-    ∀ o ∈ purgeOps cfg names fs, ∃ id, touchesOnly (.chunk id) o := by
-  induction names generalizing fs with
-  | nil => intro o h; simp [purgeOps] at h
-  | cons p rest ih =>
-    intro o h
-    rw [purgeOps_cons] at h
-    split at h
-    · rename_i hc
-      rcases List.mem_append.mp h with h | h
-      · cases p with
-        | chunk id => exact ⟨id, wipeOps_touches _ _ _ o h⟩
-        | other n => simp [Name.isChunk] at hc
-      · exact ih _ o h
-    · exact ih _ o h
+theorem purgeNames_chunk (cfg : Cfg) (fs : FS) : ∀ q ∈ purgeNames cfg fs, q.isChunk = true := by
+  intro q hq
+  simp only [purgeNames] at hq
+  split at hq
+  · exact (List.mem_filter.mp hq).2
+  · simp at hq
 
-theorem purgeOps_keep (cfg : Cfg) (names : List Name) (fs : FS) (q : Name) (h : q ∉ names ∨ q.isChunk = false) :
-    aget (applyOps fs (purgeOps cfg names fs)) q = aget fs q := by
-  induction names generalizing fs with
-  | nil => rfl
-  | cons p rest ih =>
-    rw [purgeOps_cons]
-    have hrest : q ∉ rest ∨ q.isChunk = false := by
-      rcases h with h | h
-      · exact Or.inl (fun hm => h (List.mem_cons_of_mem _ hm))
-      · exact Or.inr h
-    split
-    · rename_i hc
-      have hpq : p ≠ q := by
-        rcases h with h | h
-        · intro heq; exact h (by simp [heq])
-        · intro heq; rw [heq, h] at hc; cases hc
-      rw [applyOps_append, ih _ hrest, wipeOps_other _ _ hpq]
-    · exact ih _ hrest
-
-theorem purgeOps_gone (cfg : Cfg) (names : List Name) (fs : FS) (q : Name) (hm : q ∈ names) (hc : q.isChunk = true) :
-    aget (applyOps fs (purgeOps cfg names fs)) q = none := by
-  induction names generalizing fs with
-  | nil => simp at hm
-  | cons p rest ih =>
-    rw [purgeOps_cons]
-    by_cases hpq : p = q
-    · subst hpq
-      simp only [hc, if_true]
-      rw [applyOps_append]
-      by_cases hin : p ∈ rest
-      · exact ih _ hin
-      · rw [purgeOps_keep _ _ _ _ (Or.inl hin)]; exact wipeOps_self _ _ _
-    · have hin : q ∈ rest := by
-        rcases List.mem_cons.mp hm with h | h
-        · exact absurd h.symm hpq
-        · exact h
-      split
-      · rw [applyOps_append]; exact ih _ hin
-      · exact ih _ hin
+theorem sweepNames_chunk (cfg : Cfg) (now : Int) (s : Recs) (pend : List Name) (hp : ∀ q ∈ pend, q.isChunk = true) :
+    ∀ q ∈ sweepNames cfg now s pend, q.isChunk = true := by
+  intro q hq
+  simp only [sweepNames, List.mem_append, List.mem_map] at hq
+  rcases hq with hq | ⟨e, _, rfl⟩
+  · exact hp q hq
+  · rfl
 
 theorem mem_names_of_aget {fs : FS} {q : Name} {bs : Bytes} (h : aget fs q = some bs) : q ∈ fs.map (·.1) :=
   List.mem_map.mpr ⟨(q, bs), mem_of_aget h, rfl⟩
 
-/-- **start-up leaves no chunk file** (for any directory content whatsoever) -/
-theorem boot_no_chunk (cfg : Cfg) (hp : cfg.persistent = true) (hw : cfg.wipeOnExpiry = true) (fs : FS) (id : String) :
-    aget (boot cfg fs).fs (.chunk id) = none := by
-  simp only [boot, ctorOps, hp, hw, Bool.and_self, if_true]
-  by_cases hm : Name.chunk id ∈ fs.map (·.1)
-  · exact purgeOps_gone _ _ _ _ hm rfl
-  · rw [purgeOps_keep _ _ _ _ (Or.inl hm)]
-    cases hg : aget fs (.chunk id) with
-    | none => rfl
-    | some bs => exact absurd (mem_names_of_aget hg) hm
+/-- after a start-up (with any I/O errors) a chunk file that is still there is owed a wipe -/
+theorem bootF_chunk (cfg : Cfg) (hp : cfg.persistent = true) (hw : cfg.wipeOnExpiry = true) (φ : Faults) (fs : FS)
+    (id : String) (c : Bytes) (h : aget (bootF cfg φ fs).fs (.chunk id) = some c) :
+    Name.chunk id ∈ (bootF cfg φ fs).pending := by
+  simp only [bootF] at h ⊢
+  by_cases hm : Name.chunk id ∈ purgeNames cfg fs
+  · cases hf : decide (Name.chunk id ∈ (wipeAllF cfg φ (purgeNames cfg fs) fs 0).2.2) with
+    | true => exact of_decide_eq_true hf
+    | false =>
+      have := wipeAllF_gone cfg φ _ fs 0 _ hm (of_decide_eq_false hf)
+      rw [this] at h; cases h
+  · rw [wipeAllF_keep _ _ _ _ _ _ hm] at h
+    exfalso; apply hm
+    simp only [purgeNames, hp, hw, Bool.and_self, if_true]
+    exact List.mem_filter.mpr ⟨mem_names_of_aget h, rfl⟩
 
-theorem boot_other (cfg : Cfg) (fs : FS) (n : String) : aget (boot cfg fs).fs (.other n) = aget fs (.other n) := by
-  simp only [boot, ctorOps]
-  split
-  · exact purgeOps_keep _ _ _ _ (Or.inr rfl)
-  · rfl
+/-- **a start-up without I/O errors leaves no chunk file** (for any directory content whatsoever) -/
+theorem boot_no_chunk (cfg : Cfg) (hp : cfg.persistent = true) (hw : cfg.wipeOnExpiry = true) (fs : FS) (id : String) :
+    aget (boot cfg fs).fs (.chunk id) = none ∧ (boot cfg fs).pending = [] := by
+  have hpend : (boot cfg fs).pending = [] := by simp [boot, bootF, wipeAllF_nofault]
+  refine ⟨?_, hpend⟩
+  cases hg : aget (boot cfg fs).fs (.chunk id) with
+  | none => rfl
+  | some c =>
+    have := bootF_chunk cfg hp hw [] fs id c hg
+    simp only [boot] at hpend
+    rw [hpend] at this; cases this
+
+theorem bootF_other (cfg : Cfg) (φ : Faults) (fs : FS) (n : String) : aget (bootF cfg φ fs).fs (.other n) = aget fs (.other n) :=
+  ops_other_untouched (wipeAllF_chunks cfg φ _ fs 0 (purgeNames_chunk cfg fs)) fs n
+
+theorem bootF_pending_chunk (cfg : Cfg) (φ : Faults) (fs : FS) : ∀ q ∈ (bootF cfg φ fs).pending, q.isChunk = true :=
+  fun q hq => purgeNames_chunk cfg fs q (wipeAllF_failed_sub cfg φ _ fs 0 q hq)
 
 end EphVerif.ChunkStore
